@@ -99,6 +99,7 @@ class Ctx:
                      "new and at least one operation returned a value or changed the observed state")
         self.extra = {}
         self.findings = load_findings()
+        self.is_replay = False
 
     # -- exhaustive model checking --------------------------------------------------------
     def mc(self, module, cfg, workers=4, env=None, timeout=1800, need_actions=None, heap="6g"):
@@ -313,9 +314,10 @@ class Ctx:
         ev = {"property_id": self.pid, "tier": self.tier, "seed": self.seed, "level": self.level,
               "coverage": cov, "assumptions": self.assumptions, "wall_s": round(wall, 1),
               "violations": len(viol), "notes": self.notes}
-        os.makedirs(os.path.join(VERIF, "evidence"), exist_ok=True)
-        with open(os.path.join(VERIF, "evidence", self.pid + ".json"), "w") as f:
-            json.dump(ev, f, indent=1)
+        if not self.is_replay:   # a replay judges one stimulus; it is not a record of coverage
+            os.makedirs(os.path.join(VERIF, "evidence"), exist_ok=True)
+            with open(os.path.join(VERIF, "evidence", self.pid + ".json"), "w") as f:
+                json.dump(ev, f, indent=1)
         for l in lines:
             print(l, flush=True)
         shutil.rmtree(self.work, ignore_errors=True)
@@ -414,6 +416,7 @@ def main(registry):
         print("unknown property", a.pid)
         sys.exit(2)
     ctx = Ctx(a.pid, a.tier, seed)
+    ctx.is_replay = a.replay is not None
     try:
         registry[a.pid](ctx, os.path.abspath(a.replay) if a.replay else None)
         rc = ctx.finish()
